@@ -449,8 +449,9 @@ class Scenario:
             low_c = all(q <= self.c for q in s.ports)
             can_abbr_rows = self.ctype != "U16" and low_r and s.n < self.r
             can_abbr_cols = self.ctype != "T16" and low_c and s.n < self.c
-            s.full_rows = not (can_abbr_rows and rng.random() < 0.5)
-            s.full_cols = not (can_abbr_cols and rng.random() < 0.5)
+            pa = 1.0 if getattr(self, "abbr_all", False) else 0.5
+            s.full_rows = not (can_abbr_rows and rng.random() < pa)
+            s.full_cols = not (can_abbr_cols and rng.random() < pa)
             if getattr(s, "must_full", False):
                 s.full_rows = s.full_cols = True
             s.use_null_map = (s.entry == "mapped_matrix" and allp and
